@@ -2,6 +2,7 @@ import Pff.Props.RSSpec
 import Pff.Props.C11
 import Pff.Props.C12
 import Pff.Proofs.RSGuard
+import Pff.Proofs.Sound
 /-!
 # C02 — the Reed–Solomon facade corrects every pattern within its capacity
 
@@ -107,5 +108,28 @@ theorem C02_decode_full_block_within_radius (c : Codec F) (core : Core F) (msg e
     2 * correctedErrors (msg ++ ecc) (m' ++ e') (detectedErasures msg ecc en oe ec)
       + (detectedErasures msg ecc en oe ec).length ≤ c.n - effK c k := by
   exact Pff.RSProofs.decode_full_block_within_radius c core msg ecc k en ec oe m' e' hm he hdec
+
+/-- **Soundness without any contract.**  For an ARBITRARY third-party decoder `core`: if the
+received message+parity is within the capacity of the code around the original (`2e ≤ n−k`, or
+with erasure handling `2e + f ≤ n−k`), and `decode` returns a result of the right lengths that
+passes `check`, then that result IS the original message and its parity.  (The result is a
+codeword by the check, it differs from the received word within capacity by the guard inside
+`decode`, the original does so by hypothesis: two codewords that close to one word coincide —
+minimum distance.)  Contract W is thus needed only for *liveness* — that the decoder does return
+something within capacity — never for the correctness of what the tools commit on an ecc check. -/
+theorem C02_decode_sound (c : Codec F) (hc : GoodCodec c) (core : Core F)
+    (msg : List F) (k : Nat) (hm : msg.length ≤ effK c k) (hk : effK c k ≤ c.n)
+    (msg' ecc' : List F) (hl : msg'.length = msg.length) (he : ecc'.length = c.n - effK c k)
+    (en : Bool) (ec : F) (oe : Bool)
+    (hcap : if en || oe then
+        2 * errorsOutside (msg' ++ ecc') (msg ++ encode c msg k) (detectedErasures msg' ecc' en oe ec)
+          + (detectedErasures msg' ecc' en oe ec).length ≤ c.n - effK c k
+      else 2 * hdist (msg' ++ ecc') (msg ++ encode c msg k) ≤ c.n - effK c k)
+    (m'' e'' : List F) (hdec : decode core c msg' ecc' k en ec oe = .ok (m'', e''))
+    (hml : m''.length = msg.length) (hel : e''.length = c.n - effK c k)
+    (hchk : check c m'' e'' k = true) :
+    m'' = msg ∧ e'' = encode c msg k := by
+  exact Pff.RSProofs.decode_sound c hc core msg k hm hk msg' ecc' hl he en ec oe hcap m'' e'' hdec
+    hml hel hchk
 
 end Pff.RSSpec
